@@ -16,6 +16,8 @@
 //!  12   very long genomes, every gene of every child pooled   [12, op, len, rate_num, rate_den]
 //!         op 0 WithOneOverLength Bitstring, 1 WithOneOverLength Vec<bool>, 2 WithRate Bitstring, 3 WithRate Vec<bool>;
 //!         observation [0, [[[1], number of flipped genes], [[0], number of unflipped genes]]]
+//!  13   a whole random Plushy of `len` genes (Distribution<Plushy>), seen at one position   [13, n_instr, len, pos, close_kind, c_n, c_d]
+//!         child = [0] close, [i+1] instruction i   (same law as kind 8 at every position)
 //!  10   Umad on Plushy (genes = PushInt tags; new genes from a gene generator with close markers)
 use std::collections::BTreeMap;
 
@@ -106,6 +108,13 @@ fn hist(n: usize, seed: u64, mut f: impl FnMut(&mut AnyRng) -> Vec<i64>) -> Tree
     }
     tl![A(0), L(h.into_iter().map(|(c, k)| tl![L(c.into_iter().map(a).collect()), a(k)]).collect())]
 }
+/// a copy of `v` that (for odd seeds) carries spare capacity, as a vector built by pushing would:
+/// what a mutator does must depend on the genes, not on the allocation
+fn roomy<T: Clone>(v: &[T], seed: u64) -> Vec<T> {
+    let mut out = Vec::with_capacity(v.len() + if seed % 2 == 1 || v.len() <= 2 { 13 } else { 0 });
+    out.extend_from_slice(v);
+    out
+}
 fn b2v(b: Vec<bool>) -> Vec<i64> {
     b.into_iter().map(i64::from).collect()
 }
@@ -137,13 +146,13 @@ fn run(input: &Tree) -> Option<Tree> {
             match kind {
                 0 => {
                     let b = bools(&g)?;
-                    hist(n, seed, |rng| b2v(m.mutate(b.clone(), rng).unwrap()))
+                    hist(n, seed, |rng| b2v(m.mutate(roomy(&b, seed), rng).unwrap()))
                 }
                 1 => {
                     let b = Bitstring { bits: bools(&g)? };
                     hist(n, seed, |rng| b2v(m.mutate(b.clone(), rng).unwrap().bits))
                 }
-                _ => hist(n, seed, |rng| m.mutate(g.clone(), rng).unwrap()),
+                _ => hist(n, seed, |rng| m.mutate(roomy(&g, seed), rng).unwrap()),
             }
         }
         2 | 3 => {
@@ -152,7 +161,7 @@ fn run(input: &Tree) -> Option<Tree> {
             }
             let b = bools(&v64(p.get(1)?)?)?;
             if kind == 2 {
-                hist(n, seed, |rng| b2v(WithOneOverLength.mutate(b.clone(), rng).unwrap()))
+                hist(n, seed, |rng| b2v(WithOneOverLength.mutate(roomy(&b, seed), rng).unwrap()))
             } else {
                 let bs = Bitstring { bits: b };
                 hist(n, seed, |rng| b2v(WithOneOverLength.mutate(bs.clone(), rng).unwrap().bits))
@@ -305,6 +314,40 @@ fn run(input: &Tree) -> Option<Tree> {
             let pr = ratio(p.get(2)?, p.get(3)?)?;
             hist(n, seed, |rng| b2v(Bitstring::random_with_probability(bits, pr, rng).bits))
         }
+        13 => {
+            if p.len() != 7 {
+                return None;
+            }
+            let k = p.get(1)?.usize()?;
+            let (len, pos) = (p.get(2)?.usize()?, p.get(3)?.usize()?);
+            if k == 0 || pos >= len || len > 64 {
+                return None;
+            }
+            let instrs: Vec<PushInstruction> = (0..k as i64).map(PushInstruction::push_int).collect();
+            let d = instrs.into_distribution().ok()?;
+            let code = |g: &PushGene| match g {
+                PushGene::Close => 0,
+                other => gene_code(other) + 1,
+            };
+            match p.get(4)?.int()? {
+                0 => {
+                    let gg = d.into_gene_generator().into_collection_generator(len);
+                    hist(n, seed, |rng| {
+                        let pl: Plushy = gg.sample(rng);
+                        vec![if pl.get_genes().len() == len { code(&pl.get_genes()[pos]) } else { -5 }]
+                    })
+                }
+                1 => {
+                    let c = ratio(p.get(5)?, p.get(6)?)? as f32;
+                    let gg = d.into_gene_generator_with_close_probability(c).into_collection_generator(len);
+                    hist(n, seed, |rng| {
+                        let pl: Plushy = gg.sample(rng);
+                        vec![if pl.get_genes().len() == len { code(&pl.get_genes()[pos]) } else { -5 }]
+                    })
+                }
+                _ => return None,
+            }
+        }
         8 => {
             if p.len() != 5 {
                 return None;
@@ -426,6 +469,16 @@ fn gen_c12(tier: &str, rng: &mut Sm) -> Gen {
         g.inputs.push(case(rng, n, tl![A(7), A(5), a(pn), a(pd)]));
     }
     g.inputs.push(case(rng, 200, tl![A(7), A(0), A(1), A(2)]));
+    // whole random Plushy genomes, gene by gene: the first, an inner and the last position follow the gene law
+    for (t, (k, len)) in [(1i64, 1usize), (2, 3), (3, 5), (4, 8)].iter().enumerate() {
+        for pos in [0usize, len / 2, len - 1] {
+            if tier != "thorough" && pos != 0 && t % 2 == 1 {
+                continue;
+            }
+            g.inputs.push(case(rng, n, tl![A(13), a(*k), au(*len), au(pos), A(0), A(0), A(1)]));
+            g.inputs.push(case(rng, n, tl![A(13), a(*k), au(*len), au(pos), A(1), A(1), A(2)]));
+        }
+    }
     // very long genomes: the per-gene flip frequency pooled over all genes of all children (1/length must not
     // saturate or lose precision for genomes of 2^16 genes and more)
     for (op, len, rn, rd, k) in [(0i64, (1usize << 17) + 1, 1i64, 1i64, 300usize), (1, 1 << 17, 1, 1, 300), (0, 1 << 18, 1, 1, 200), (2, 100_000, 1, 4096, 40), (3, 65_537, 1, 1024, 60)] {
